@@ -638,6 +638,9 @@ func runFetchOp(w *fworld, r *rand.Rand, st *fetchStats, op int, all []iface.IPF
 	var result []iface.IPFSLogEntry
 	var loaded *ipfslog.IPFSLog
 	var lerr error
+	// progress reports (FetchAll): a channel large enough never to block the fetcher; every admitted entry
+	// must be reported exactly once
+	progress := make(chan iface.IPFSLogEntry, 8192)
 	outcome, gOutcome := "ok", "ok" // gOutcome belongs to the operation's goroutine until done is closed
 	done := make(chan struct{})
 	start := time.Now()
@@ -651,7 +654,7 @@ func runFetchOp(w *fworld, r *rand.Rand, st *fetchStats, op int, all []iface.IPF
 		ctx := context.Background()
 		switch kind {
 		case "fa":
-			result = entry.FetchAll(ctx, api, roots, &entry.FetchOptions{Length: lp, Concurrency: conc, Timeout: timeout, ShouldExclude: shouldExclude})
+			result = entry.FetchAll(ctx, api, roots, &entry.FetchOptions{Length: lp, Concurrency: conc, Timeout: timeout, ShouldExclude: shouldExclude, ProgressChan: progress})
 		case "mh":
 			var mhc cid.Cid
 			mhc, lerr = sl.ToMultihash(ctx)
@@ -734,6 +737,17 @@ func runFetchOp(w *fworld, r *rand.Rand, st *fetchStats, op int, all []iface.IPF
 			fmt.Fprintf(out, "R hang -\n")
 		} else {
 			fmt.Fprintf(out, "R %s %s\n", outcome, flst(w.als(result)))
+			var pg []string
+		drainProgress:
+			for {
+				select {
+				case e := <-progress:
+					pg = append(pg, w.al(e))
+				default:
+					break drainProgress
+				}
+			}
+			fmt.Fprintf(out, "PG %s\n", flst(pg))
 		}
 	} else {
 		if outcome != "ok" || loaded == nil {
